@@ -3,11 +3,8 @@ package props
 import (
 	"bytes"
 	"fmt"
-	"io/ioutil"
 	"math"
 	"math/rand"
-	"net/http"
-	"net/http/httptest"
 	"os"
 	"path/filepath"
 	"sort"
@@ -334,36 +331,7 @@ func (c08) Run(c *fw.Ctx) {
 			for k := 0; k < 6; k++ {
 				writeFixture(filepath.Join(lsrc, fmt.Sprintf("x%d.wsp", k)), srcL, genContent(r, l, now, 0.5), now)
 			}
-			proxy := httptest.NewServer(http.HandlerFunc(func(w http.ResponseWriter, req *http.Request) {
-				resp, err := http.Get(u + req.URL.RequestURI())
-				if err != nil {
-					http.Error(w, err.Error(), http.StatusBadGateway)
-					return
-				}
-				body, _ := ioutil.ReadAll(resp.Body)
-				resp.Body.Close()
-				if req.URL.Path == "/files" && resp.StatusCode == 200 {
-					lines := bytes.SplitAfter(body, []byte("\n"))
-					var half []byte
-					for _, ln := range lines[:len(lines)/2] {
-						half = append(half, ln...)
-					}
-					if hj, ok := w.(http.Hijacker); ok {
-						if conn, buf, err := hj.Hijack(); err == nil {
-							fmt.Fprintf(buf, "HTTP/1.1 200 OK\r\nContent-Type: text/plain; charset=utf-8\r\nContent-Length: %d\r\n\r\n", len(body))
-							buf.Write(half)
-							buf.Flush()
-							conn.Close()
-							return
-						}
-					}
-				}
-				for k, v := range resp.Header {
-					w.Header()[k] = v
-				}
-				w.WriteHeader(resp.StatusCode)
-				w.Write(body)
-			}))
+			proxy := breakingListingProxy(u)
 			bdest := filepath.Join(dir, "dest-broken-listing")
 			mustMkdir(bdest)
 			args := []string{"copy", "-src-base", proxy.URL, "-src", name + "/*.wsp", "-dest-base", bdest,
